@@ -13,7 +13,7 @@
 From Coq Require Import List Arith ZArith Lia.
 From TeraV Require Import Model.Value Model.Instr Model.Optimize Proofs.OptimizeProofs Props.C09.
 From TeraV Require Spec.Utf8Chars Spec.Doc Model.Lexer Model.LexerSlices Model.Report Proofs.LexerSpans
-  Proofs.LexerBoundary Props.C08 Props.C12.
+  Proofs.ReportProofs Proofs.LexerBoundary Proofs.LexerTokenCuts Props.C08 Props.C12.
 From TeraV Require Import Gen.Tables Gen.ParseLimits Model.ParseDepth
   Proofs.ParseDepthProofs Proofs.ParseDepthLimits Proofs.ParseDepthAst Proofs.ParseDepthNoPanic.
 Import ListNotations.
@@ -197,6 +197,21 @@ Theorem C06_checked_get_is_byte_test : forall s d a,
   (LexerSlices.get2 s a = Some d <-> Doc.window s a = d).
 Proof. exact LexerBoundary.get2_is_window. Qed.
 
+(* the cuts and the token ranges describe the same run: every token of an accepted run starts at
+   0, at the previous cut or after the whitespace advance!, and ends where an advance! ended
+   (Proofs/LexerTokenCuts.v); so every token byte range - the `range` of every lexer Span, which
+   C12 needs on character boundaries - lies on character boundaries of the source *)
+Theorem C06_token_ranges_are_cuts : forall dl src pt s e,
+  Lexer.lex_ptoks dl src = Value.ROk pt -> In (s, e) (LexerSpans.offsets 0 pt) ->
+  (s = 0 \/ In s (LexerSlices.slice_offsets dl src)) /\ In e (LexerSlices.slice_offsets dl src).
+Proof. exact LexerTokenCuts.token_ranges_are_cuts. Qed.
+
+Theorem C06_token_ranges_on_boundaries : forall dl src pt s e,
+  Lexer.validate dl = Value.ROk tt -> LexerSlices.delims_utf8 dl -> Utf8Chars.valid_utf8 src ->
+  Lexer.lex_ptoks dl src = Value.ROk pt -> In (s, e) (LexerSpans.offsets 0 pt) ->
+  Report.is_char_boundary src s = true /\ Report.is_char_boundary src e = true.
+Proof. exact LexerTokenCuts.token_ranges_on_boundaries. Qed.
+
 (* the hypothesis on the delimiters is needed by the MODEL (whose delimiters are byte lists): with
    the second half of `é` and the first half of another character as "delimiter" - not a Rust
    str - the run cuts inside a character *)
@@ -227,6 +242,8 @@ Print Assumptions C06_parser_unreachable_reached_off_lexer_streams.
 Print Assumptions C06_lexer_total_and_boundary_safe.
 Print Assumptions C06_checked_get_is_byte_test.
 Print Assumptions C06_boundary_needs_utf8_delimiters.
+Print Assumptions C06_token_ranges_are_cuts.
+Print Assumptions C06_token_ranges_on_boundaries.
 
 (* non-vacuity: real runs with enough fuel *)
 Example C06_ex_accepts :
@@ -264,3 +281,27 @@ Example C06_ex_lexer_shaped :
              TTagStart; TWord WEndif; TTagEnd] in
   lexer_shaped MT ts = true /\ match parse cfg_tree (fuel_for ts) ts with ROk _ _ => True | _ => False end.
 Proof. vm_compute. split; [reflexivity | exact I]. Qed.
+
+(* the lexer half is not vacuous: a delimiter set made of 2-byte characters (÷ × {{ }} é è) is
+   accepted and satisfies the UTF-8 hypothesis *)
+Definition dl_2byte : Lexer.delims :=
+  Lexer.mkDelims [0xC3; 0xB7]%N [0xC3; 0x97]%N [0x7B; 0x7B]%N [0x7D; 0x7D]%N [0xC3; 0xA9]%N [0xC3; 0xA8]%N.
+Example C06_ex_2byte_delimiters_accepted :
+  Lexer.validate dl_2byte = Value.ROk tt /\ LexerSlices.delims_utf8 dl_2byte.
+Proof.
+  split; [reflexivity|]. repeat split; apply ReportProofs.valid_utf8b_ok; vm_compute; reflexivity.
+Qed.
+
+(* `é{{ 'é' }}`: text cut at 2, `{{` at 4, whitespace at 5, the string advance! at 9 and its
+   inner `&s[1..len-1]` at 6 and 8, whitespace at 10, `}}` at 12 *)
+Example C06_ex_slice_offsets :
+  LexerSlices.slice_offsets Lexer.default_delims
+    [0xC3; 0xA9; 0x7B; 0x7B; 0x20; 0x27; 0xC3; 0xA9; 0x27; 0x20; 0x7D; 0x7D]%N
+  = [2; 4; 5; 9; 6; 8; 10; 12].
+Proof. vm_compute. reflexivity. Qed.
+
+(* with é as comment start and è as comment end, `aé-日è` is text, then a comment: cuts at 1
+   (text), 4 (`é-`), 9 (comment end found by memstr after the 3-byte character) *)
+Example C06_ex_slice_offsets_2byte :
+  LexerSlices.slice_offsets dl_2byte [0x61; 0xC3; 0xA9; 0x2D; 0xE6; 0x97; 0xA5; 0xC3; 0xA8]%N = [1; 4; 9].
+Proof. vm_compute. reflexivity. Qed.
